@@ -130,13 +130,13 @@ def build():
     u.macro(K, "get_key_type")
     for f, arg, forms in [("from_der", "der_data", "crate::openssl::pkey::trad_der(id)"), ("from_pem", "pem_data", "crate::openssl::pkey::pkcs8_pem(id)")]:
         u.verify(K, f"KeyPair::{f}", "crypto", props=["C15", "C11"], fns={f: FnSpec(ret="r", sig=f"""
-    ensures r matches Ok(k) ==> k.wf(), //@C15.loaded_key_type_is_detected_from_the_key
+    ensures r matches Ok(k) ==> k.wf(), //@C15.loaded_key_type_is_detected_from_the_key,C03.loaded_key_type_is_detected_from_the_key,C02.loaded_key_type_is_detected_from_the_key
         // what private_key_to_der / private_key_to_pem wrote is read back, and as the same key (whenever its type is a supported one)
         forall|id: int, t: KeyType| #![trigger {forms}, kind_of(t)] {arg}@ == {forms} && crate::openssl::pkey::kind_of_ident(id) == kind_of(t)
-            ==> (r matches Ok(k) && k.inner_key.ident@ == id && k.key_type == t), //@C15.keys_survive_the_round_trip,C11.keys_survive_the_round_trip
+            ==> (r matches Ok(k) && k.inner_key.ident@ == id && k.key_type == t), //@C15.keys_survive_the_round_trip,C11.keys_survive_the_round_trip,C03.keys_survive_the_round_trip,C02.keys_survive_the_round_trip
 """)})
     u.verify(K, "KeyPair::private_key_to_der", "crypto", props=["C15", "C11"], fns={"private_key_to_der": FnSpec(ret="r", sig="""
-    ensures r matches Ok(v) ==> v@ == crate::openssl::pkey::trad_der(self.inner_key.ident@), //@C15.keys_survive_the_round_trip,C11.keys_survive_the_round_trip
+    ensures r matches Ok(v) ==> v@ == crate::openssl::pkey::trad_der(self.inner_key.ident@), //@C15.keys_survive_the_round_trip,C11.keys_survive_the_round_trip,C03.keys_survive_the_round_trip,C02.keys_survive_the_round_trip
 """)})
     u.verify(K, "KeyPair::private_key_to_pem", "crypto", props=["C15", "C02"], fns={"private_key_to_pem": FnSpec(ret="r", sig="""
     ensures r matches Ok(v) ==> v@ == crate::openssl::pkey::pkcs8_pem(self.inner_key.ident@), //@C15.keys_survive_the_round_trip,C02.key_file_is_the_pkcs8_pem_of_the_key
